@@ -56,7 +56,7 @@ CLAIMED = {
    ref='6 C14'),
  'C15': dict(
    text="Deductive: _OperatorDelimiter.__init__ is verified against the operator-precedence grammar of the language reference for every child operator, parent operator/kind and operand side (whenever the grammar requires parentheses, they are kept: needs_parens => not discard), using astor's precedence table read from the installed package at run time; _ColorizerState.mark/restore are verified as a backup point (restore returns exactly what it trims, nothing is lost).",
-   note="Not under contract: per-node rendering, line wrapping/truncation (_output, colorize), tuples, everything rendered through astor.to_source, string/bytes escaping - these are decided by the bounded native read-back oracle only (every operator chain of depth three, 45 forms x 21 wrappers, truncation grid). Known finding KF-C15-one-tuple (one-element tuples lose their comma; pinned by the repository's own test).",
+   note="Not under contract: per-node rendering, line wrapping/truncation (_output, colorize), tuples, everything rendered through astor.to_source, string/bytes escaping - these are decided by the bounded native read-back oracle only (every operator chain of depth three, 62 forms x 27 wrappers, truncation grid, the displayed values of a real module's constants / type variables / aliases, re-rendered regular expressions compared with the written ones on all short strings). Known findings KF-C15-one-tuple (one-element tuples lose their comma; pinned by the repository's own test), KF-C15-slice-tuple-bound, KF-C15-float-inf.",
    ref='6 C15'),
  'C16': dict(
    text="Deductive: the line arithmetic and the accounting are verified hop by hop for all inputs: extract_docstring_linenum (= node line + newlines of the stripped whitespace prefix; loop invariant), extract_docstring, setDocstring, Documentable.description (the object's own source file, not that of the module it was moved to), Documentable.report (message = description:base+offset, base chosen by section; counted), Field.report, ParseError.linenum/descr, reportErrors (once per object and section, one message per error, 0-based offsets), System.msg (every negative-threshold message counted, `once` messages once) and driver.main (exit status = the statement's formula over the final counters); 'moving the definition down by k lines moves the reported line by k' is a lemma over the spec.",
